@@ -7,7 +7,7 @@ from props import _xform as X
 
 META = {
     "level": "proof",
-    "technique": "Coq theorems on a Gallina model of run_list_archive / print_entries / build_tree and of extract's entry selection; the model is tied to the real `pna list` (plain, table, JSON lines, tree; --solid, --classify, patterns) and `pna extract` by parsing their real output on generated archives and comparing with the model, plus a direct three-way set comparison list / extract / libpna",
+    "technique": "Coq theorems on a Gallina model of run_list_archive / print_entries / build_tree and of extract's entry selection; the model is tied to the real `pna list` (plain, table, JSON lines, tree; --solid, --classify, patterns) and `pna extract` by parsing their real output on generated archives and comparing with the model, plus a direct three-way set comparison list / extract / libpna Generated archives include files that record no size (no fSIZ chunk) and link targets up to 4000 bytes; every view must show the recorded size (none) and the whole target.",
     "level_text": "list_rows, the four printers' row content, the tree's node set and extract's selection are modelled in Gallina; that list --solid reports exactly the library's entries matched by the patterns, that list without --solid omits exactly the inner entries of solid blocks, that extract materialises exactly the listed names (plus their parent directories) and that the tree's nodes are the prefix closure of the names are proved for all archives and selections (Coq, closed under the global context; glob matching is a parameter). The stdout of the real `pna list` in every format and the tree written by `pna extract` are parsed back on generated archives (normal, solid, mixed, encrypted, multipart; names with spaces, unicode, control characters, glob metacharacters) and must equal the model's answer and each other.",
     "level_note": "Trusted: Coq kernel + vm_compute; extraction and the OCaml driver (cross-checked in the kernel on a sample); harness mkarchive/dump/globtab; the Python parsers of the table and tree drawings (the table is only parsed on archives whose names have no newline and no trailing blank). JSON lines and the table do not print link targets, and print hard links as files: kinds and targets are compared as far as each format shows them.",
 }
